@@ -3,6 +3,8 @@ from ..eng import EngineModel
 from .. import rules_bind as rb
 from .. import rules_extra as rx
 from .. import rules_query as rq
+from .. import rules_compile as rc
+from .. import rules_emit as re_
 
 
 def check(repo, rep, tier):
@@ -24,3 +26,6 @@ def check(repo, rep, tier):
     rep.run(rb.rule_no_exception_capture, em, rep, 'C03.U7')
     rep.run(rx.rule_no_cached_binding_state, em, rep, 'C03.U6')
     rep.run(rq.rule_query_finalised, em, rep, 'C03.U8')
+    # generated code: abandoned goal iterators are dropped (and thereby finalised) the moment their loop is left
+    cm = rc.CompilerModel(repo)
+    rep.run(re_.rule_goal_iterators_unnamed, cm, rep, 'C03.U9')
